@@ -496,6 +496,61 @@ example : (hm2mCmd (⟨[[2], [6]], [⟨[(6, 0)], [(2, 1)]⟩, ⟨[(6, 0)], [(2, 
       (fun p => p.1.abs)
     = some [⟨[(6, [2, 4])], [(2, [6]), (4, [6])]⟩, ⟨[(6, [2, 4])], [(2, [6])]⟩] := by decide
 
+/-! ## ManyToMany, caller level (`Args.lean`, round 3)
+
+Arguments as the caller built them: a mapping is walked by `keys()` / `[k]` (each key once, last value), a list or
+iterator of pairs in one lazy pass, another ManyToMany by the two-loop merge; one-shot iterators are objects the caller
+may keep, consume from and pass again.  The lowering looks only at the iterator store, so both machines run the same
+lowered history. -/
+
+/-- MAIN at caller level, by value: after any caller-level history every instance satisfies the invariant - the two
+    sides hold the same pairs transposed, no empty entry -/
+theorem m2mA_invariant (cmds : List (M2MCmdA α)) (st : M2MSt α) (h : m2mRunA M2MSt.empty cmds = some st) :
+    ∀ s ∈ st.regs, s.WF ∧ (∀ k v, (k, v) ∈ iteritems s.data ↔ (v, k) ∈ iteritems s.inv) ∧
+      (∀ p ∈ s.data, p.2 ≠ []) ∧ (∀ p ∈ s.inv, p.2 ≠ []) := by
+  obtain ⟨cs', _, hr⟩ := m2mRunA_lower cmds h
+  intro s hs
+  have w := m2m_invariant cs' st.regs hr s hs
+  exact ⟨w, m2m_same_pairs_transposed cs' st.regs hr s hs, w.gd.ne_of_mem, w.gi.ne_of_mem⟩
+
+/-- MAIN at caller level, heap: the heap-level machine (set objects with identities) driven by a caller-level history
+    shows by value exactly what the by-value machine shows, leaves the iterators in the same state, and no set object
+    is referenced twice -/
+theorem hm2mA_refines (cmds : List (M2MCmdA α)) (s : HM2MSt α) (h : hm2mRunA HM2MSt.empty cmds = some s) :
+    m2mRunA M2MSt.empty cmds = some ⟨s.st.abs, s.iters⟩ ∧ HSep s.st := by
+  obtain ⟨cs', hl, hr⟩ := hm2mRunA_lower cmds h
+  exact ⟨m2mRunA_of_lower cmds [] _ [] _ cs' hl (hm2m_refines cs' s.st hr), hm2m_separation cs' s.st hr⟩
+
+/-- a held one-shot iterator gives what it has left to the one pass made over it and is empty afterwards -/
+theorem m2mA_iter_one_shot (its its' : List (List (α × α))) (i : Nat) (ps : List (α × α))
+    (h : takePairs its (.iter i) = some (ps, its')) :
+    its[i]? = some ps ∧ its'[i]? = some [] ∧ (∀ j, j ≠ i → its'[j]? = its[j]?) ∧
+    takePairs its' (.iter i) = some ([], its') :=
+  takePairs_iter_one_shot its its' i ps h
+
+/-- what the argument kinds lower to: a mapping is `add(k, m[k])` for each key once (last value), another ManyToMany
+    the two-loop merge, `ManyToMany(other)` the merge into a fresh instance -/
+theorem m2mA_lowering (its : List (List (α × α))) (r r2 : Nat) (side side2 : Bool) (raw : List (α × α)) :
+    lowerM its (.update r side (.dict raw)) = some (some (.op r side (.update (putAll [] raw))), its) ∧
+    lowerM its (.update r side (.pairs raw)) = some (some (.op r side (.update raw)), its) ∧
+    lowerM its (.update r side (.reg r2 side2)) = some (some (.updateFrom r side r2 side2), its) ∧
+    lowerM its (.new (.reg r2 side2)) = some (some (.newFrom r2 side2), its) ∧
+    lowerM its (.new (.dict raw)) = some (some (.new (putAll [] raw)), its) := ⟨rfl, rfl, rfl, rfl, rfl⟩
+
+/-! non-vacuity: a mapping written with key 1 twice adds only `(1, 6)`, the same pairs as a list add both; an iterator
+    of three pairs, one taken by the caller, then passed to `update` and again to a constructor (nothing left); a copy
+    through the inverse side, updated from itself - on both machines -/
+example : m2mRunA (M2MSt.empty : M2MSt Nat)
+    [.new (.dict [(1, 5), (1, 6)]), .new (.pairs [(1, 5), (1, 6)]), .mkIter [(7, 8), (7, 9), (2, 9)], .next 0,
+     .update 0 true (.iter 0), .new (.iter 0), .update 1 false (.reg 1 true)]
+    = some ⟨[⟨[(1, [6]), (9, [7, 2])], [(6, [1]), (7, [9]), (2, [9])]⟩,
+             ⟨[(1, [5, 6]), (5, [1]), (6, [1])], [(5, [1]), (6, [1]), (1, [5, 6])]⟩, ⟨[], []⟩], [[]]⟩ := by decide
+example : (hm2mRunA (HM2MSt.empty : HM2MSt Nat)
+    [.new (.dict [(1, 5), (1, 6)]), .new (.pairs [(1, 5), (1, 6)]), .mkIter [(7, 8), (7, 9), (2, 9)], .next 0,
+     .update 0 true (.iter 0), .new (.iter 0), .update 1 false (.reg 1 true)]).map (fun s => (s.st.abs, s.iters))
+    = some ([⟨[(1, [6]), (9, [7, 2])], [(6, [1]), (7, [9]), (2, [9])]⟩,
+             ⟨[(1, [5, 6]), (5, [1]), (6, [1])], [(5, [1]), (6, [1]), (1, [5, 6])]⟩, ⟨[], []⟩], [[]]) := by decide
+
 /-! ## FrozenDict
 
 `Generated.frozenBlocked` / `Generated.frozenRaises` are regenerated from the class body on every
